@@ -8,6 +8,7 @@ import SeataModel.Driver.C04
 import SeataModel.Driver.C07
 import SeataModel.Driver.C19
 import SeataModel.Driver.C14
+import SeataModel.Driver.C15
 
 open Seata.Driver
 
@@ -19,6 +20,7 @@ def dispatch (prop : String) (ws : List String) : String :=
   | "C07" => C07.handle ws
   | "C19" => C19.handle ws
   | "C14" => C14.handle ws
+  | "C15" => C15.handle ws
   | _ => "bad-prop"
 
 partial def loop (hin : IO.FS.Stream) (hout : IO.FS.Stream) : IO Unit := do
